@@ -246,3 +246,25 @@ Proof. split; reflexivity. Qed.
 Example C10_refuted_ts_client_empty_violations :
   ts_client 400 (Some (pmsg_pj (PValidation []))) = TSApi 400 (Some (JObj [])).
 Proof. reflexivity. Qed.
+
+(* ---- the TS client on ANY failed response: ValidationError with the body's violations, or ApiError with the
+   status and the body — never anything else, whatever the status, the hook or the body shape ---------------------- *)
+Theorem C10_client_ts_total : forall st body,
+  (exists v, ts_client st body = TSValidation v /\ st = 400%Z /\
+             exists kv, body = Some (JObj kv) /\ assoc_json (s "violations") kv = Some v /\ js_truthy v = true)
+  \/ ts_client st body = TSApi st body.
+Proof. exact ts_client_total. Qed.
+Print Assumptions C10_client_ts_total.
+
+Theorem C10_client_ts_400_violations : forall kv v rest, assoc_json (s "violations") kv = Some (JArr (v :: rest)) ->
+  ts_client 400 (Some (JObj kv)) = TSValidation (JArr (v :: rest)).
+Proof. exact ts_client_400_violations. Qed.
+Print Assumptions C10_client_ts_400_violations.
+
+(* a hook that sets 400 on a plain error ({"message":...}), a text body, an empty ValidationError: ApiError 400 *)
+Example C10_client_ts_nonvacuous :
+  ts_client 400 (Some (JObj [(s "message", JStr (s "boom"))])) = TSApi 400 (Some (JObj [(s "message", JStr (s "boom"))])) /\
+  ts_client 400 None = TSApi 400 None /\
+  ts_client 400 (Some (JObj [])) = TSApi 400 (Some (JObj [])) /\
+  ts_client 400 (Some (JObj [(s "violations", JArr [JObj [(s "field", JStr (s "a"))]])])) = TSValidation (JArr [JObj [(s "field", JStr (s "a"))]]).
+Proof. vm_compute. repeat split; reflexivity. Qed.
